@@ -6,6 +6,7 @@ import Qfx.Drv.Sched
 import Qfx.Drv.SchedMon
 import Qfx.Drv.Sess
 import Qfx.Drv.SessMon
+import Qfx.Drv.Link
 import Qfx.Drv.Dict
 import Qfx.Drv.DictMon
 import Qfx.Drv.Valid
@@ -16,6 +17,7 @@ def families : List (String × Family) :=
   [ ("val", valFamily), ("val-mon", valMonFamily)
   , ("sched", schedFamily), ("sched-mon", schedMonFamily)
   , ("sess", sessFamily), ("sess-mon", sessMonFamily)
+  , ("link", linkFamily), ("link-mon", linkMonFamily)
   , ("dict", dictFamily), ("dict-mon", dictMonFamily)
   , ("valid", validFamily), ("valid-mon", validMonFamily)
   ]
